@@ -212,6 +212,9 @@ func genCase(r *sim.Rand) caseT {
 	famHost := sim.Pick(r, []string{"a.com", "a.com", "a.com", "b.a.com", "api.x.io"})
 	famPath := []string{sim.Pick(r, []string{"x", "y", "{p}"}), sim.Pick(r, []string{"x", "y", "{p}"}), sim.Pick(r, []string{"x", "y", "{p}"})}
 	mW := []string{"GET", "GET", "GET", "POST", "POST", "PUT"}
+	if c.E2E && r.Chance(1, 2) { // one method, one remedy type: a "pure" set
+		mW = []string{sim.Pick(r, mW)}
+	}
 	seen := map[string]bool{}
 	for tries := 0; len(c.Eps) < n && tries < 100; tries++ {
 		e := ep{Method: sim.Pick(r, mW), URL: genPattern(r, famHost, famPath)}
@@ -518,7 +521,7 @@ func divertedBySibling(ds []decl, best decl, url string) bool {
 	return false
 }
 
-func judge(ds []decl, pr probe, o outcome) []finding {
+func judge(ds []decl, pr probe, o outcome, pure bool) []finding {
 	var fs []finding
 	ulen := len(sim.SplitURL(pr.URL))
 	var yes []decl
@@ -559,6 +562,7 @@ func judge(ds []decl, pr probe, o outcome) []finding {
 	e := ds[o.Sel]
 	normPat := sim.ParsePattern(o.Norm)
 	own := ownNode(ds, e, o.Norm)
+	foreign := !own && !pure
 	wrong := false
 	if e.Method != pr.Method {
 		wrong = true
@@ -569,12 +573,12 @@ func judge(ds []decl, pr probe, o outcome) []finding {
 		wrong = true
 		var k string
 		switch {
-		case !own:
+		case foreign:
 			k = "policy-served-from-foreign-node"
 		case e.pat.Wildcard && !e.pat.WildHost && hostLabels(sim.SplitURL(pr.URL)) > hostLabels(e.pat.Parts):
 			k = "path-wildcard-crosses-host-boundary"
 		default:
-			k = "own-node/" + class(e.pat) + "-pattern-does-not-match"
+			k = class(e.pat) + "-pattern-does-not-match"
 		}
 		fs = append(fs, finding{sig: "C13/wrong-endpoint/" + k,
 			detail: fmt.Sprintf("%s %s received the policy declared for %q, whose pattern does not match the URL (normalized=%q)", pr.Method, pr.URL, e.name(), o.Norm)})
@@ -592,7 +596,7 @@ func judge(ds []decl, pr probe, o outcome) []finding {
 			default:
 				continue
 			}
-			if !own {
+			if foreign {
 				k = "policy-served-from-foreign-node"
 			} else if divertedBySibling(ds, d, pr.URL) {
 				k = "diverted-by-more-specific-sibling"
@@ -611,7 +615,7 @@ func judge(ds []decl, pr probe, o outcome) []finding {
 				k = "wildcard-zero-segments-reported-without-wildcard"
 			} else if own && e.pat.Wildcard {
 				k = "wildcard-fallback-reported-as-walked-path"
-			} else if !own {
+			} else if foreign {
 				k = "policy-served-from-foreign-node"
 			}
 			fs = append(fs, finding{sig: "C13/normalized-url/not-a-declared-pattern/" + k,
@@ -792,12 +796,6 @@ func runCase(idx int, args sim.Args, c caseT, v *sim.Verdict, env *e2eEnv) {
 			} else {
 				v.Count("selected:none", 1)
 			}
-			for _, f := range judge(ds, pr, o) {
-				w := rp
-				w.Probe = &probes[k]
-				w.OutcomeA = o.key()
-				v.Violate(f.sig, fmt.Sprintf("declared in this order: %q\n%s", rp.OrderA, f.detail), w)
-			}
 		}
 		// dispatcher slice: the real DispatchOnRequest must apply the same endpoint's remedy
 		if c.E2E && env != nil && len(acc) == 0 {
@@ -839,6 +837,28 @@ func runCase(idx int, args sim.Args, c caseT, v *sim.Verdict, env *e2eEnv) {
 	}
 	if len(acc) == 0 {
 		return
+	}
+	// per-order oracle. "pure": one method and one remedy type in the whole set. The builder rejects
+	// every declaration whose URL already resolves to a policy of that method and type, so no accepted
+	// order of a pure set can have two nodes sharing one method map; a policy reported under another
+	// pattern's normalised URL is then a lookup failure and is named by pattern classes, not as
+	// "served from a foreign node". Only the NAME of a violation depends on this, never its existence.
+	pure := true
+	for _, d := range ds[1:] {
+		if d.Method != ds[0].Method || d.Kind != ds[0].Kind {
+			pure = false
+		}
+	}
+	for _, b := range acc {
+		for k, pr := range probes {
+			for _, f := range judge(ds, pr, b.outs[k], pure) {
+				w := base
+				w.OrderA = names(c, b.order)
+				w.Probe = &probes[k]
+				w.OutcomeA = b.outs[k].key()
+				v.Violate(f.sig, fmt.Sprintf("declared in this order: %q\n%s", w.OrderA, f.detail), w)
+			}
+		}
 	}
 	// order independence among the accepted orders
 	if len(acc) > 1 {
